@@ -126,6 +126,19 @@ func rewriteFile(path string, fs, tm, locks, gos, yield bool) (int, error) {
 	usedShim := false
 	touched := map[string]bool{}
 
+	// db.Lock(), m.RUnlock(), ... as a statement: a scheduling point for the race build
+	isLockStmt := func(e ast.Expr) bool {
+		if call, ok := e.(*ast.CallExpr); ok {
+			if sel, ok := call.Fun.(*ast.SelectorExpr); ok && len(call.Args) == 0 {
+				switch sel.Sel.Name {
+				case "Lock", "RLock", "Unlock", "RUnlock":
+					return true
+				}
+			}
+		}
+		return false
+	}
+
 	isFsCall := func(e ast.Expr) bool {
 		found := false
 		ast.Inspect(e, func(nd ast.Node) bool {
@@ -152,7 +165,7 @@ func rewriteFile(path string, fs, tm, locks, gos, yield bool) (int, error) {
 				hit := false
 				switch s := st.(type) {
 				case *ast.ExprStmt:
-					hit = isFsCall(s.X)
+					hit = isFsCall(s.X) || isLockStmt(s.X)
 				case *ast.AssignStmt:
 					for _, r := range s.Rhs {
 						hit = hit || isFsCall(r)
